@@ -22,11 +22,13 @@ pub struct WorldOpts {
     /// lines appended to the world's `rewrite.def` (keys that are NFKC-stable and lower-case reach `replace_fast`, which the
     /// shipped table never does: every shipped key contains a character that sends the text to the slow path)
     pub rewrite_extra: Option<String>,
+    /// user dictionaries get a compound whose A/B units and word structure are `U` references to their own first two rows
+    pub user_compounds: bool,
 }
 
 impl Default for WorldOpts {
     fn default() -> Self {
-        WorldOpts { input_plugins: true, path_rewrite: true, max_users: 2, splits: true, extreme: false, always_fallback: true, lex_size: 24, users_exact: None, unrelated_units: false, rewrite_extra: None }
+        WorldOpts { input_plugins: true, path_rewrite: true, max_users: 2, splits: true, extreme: false, always_fallback: true, lex_size: 24, users_exact: None, unrelated_units: false, rewrite_extra: None, user_compounds: false }
     }
 }
 
@@ -186,6 +188,15 @@ pub fn gen_world(rng: &mut Rng, tag: &str, o: &WorldOpts) -> Result<World, Strin
                 let w = if rng.chance(1, 3) { rng.pick(&lex.rows).surface.clone() } else { rand_word(rng, &pool, 3) };
                 let mut r = Row::simple(&w, rng.below(n) as i32, rng.below(n) as i32, rng.below(6000) as i32 - 200, rng.below(pos.len()));
                 if rng.chance(1, 4) { r.norm = rand_word(rng, &pool, 2); }
+                rows.push(r);
+            }
+            if o.user_compounds && rows.len() >= 2 && rows[0].surface != rows[1].surface && rng.chance(3, 4) {
+                // a compound of the first two rows, cheap enough to be chosen; its units are references INTO THIS dictionary
+                let mut r = Row::simple(&format!("{}{}", rows[0].surface, rows[1].surface), rng.below(n) as i32, rng.below(n) as i32, -(rng.below(2000) as i32) - 500, rng.below(pos.len()));
+                r.mode = 'C';
+                r.split_a = "U0/U1".into();
+                if rng.chance(1, 2) { r.split_b = "U0/U1".into(); }
+                r.wstruct = "U0/U1".into();
                 rows.push(r);
             }
             let ucsv = csv_of(&rows, &pos);
